@@ -1,0 +1,16 @@
+//go:build verif
+
+package countpb
+
+// Machine-checked contracts for this package (comment-only; excluded from normal builds).
+// The Get/Update/Pull contracts of the memory device are generated (verif_contracts_c14.go); this is the one RPC outside the
+// template.
+
+//@ property C14
+//@ // resetting is an unmasked write of zero counts: one write, and the resource's verdict goes back unchanged, a rejection
+//@ // without touching the absent result
+//@ func (*MemoryDevice).ResetCount(ctx, request) (res, err)
+//@   requires wfDeviceC14_count(recv) && request != nil
+//@   track Set
+//@   ensures [one-write] calls(Set) == old(calls(Set)) + 1 && lastarg(Set, 0) == old(recv.count)
+//@   ensures [answer] err == lastcall(Set, 1) && (err != nil ==> res == nil) && (err == nil ==> istype(lastcall(Set, 0), *traits.Count) && res == cast(lastcall(Set, 0), *traits.Count))
